@@ -89,7 +89,9 @@ Theorem dispatch_inv_full : forall cx g s e s' res tags,
     | DSent p =>
         exists zwp ka, seg_ok cx g1 s1 (snd p) zwp ka /\
                        ip_payload_len (fst p) = repr_buffer_len (snd p) /\ same_epoch g1 g' /\
-                       (g' = g1 \/ exists f, g' = g_sent g1 f /\ g_flight g1 <= f)
+                       (g' = g1 \/ exists f, g' = g_sent g1 f /\ g_flight g1 <= f) /\
+                       (* ka is the model's own keep-alive decision, reported in the branch tags *)
+                       In (if ka then 245 else 246) tags
     | DEmitFailed p =>
         exists zwp ka, seg_ok cx g1 s1 (snd p) zwp ka /\
                        ip_payload_len (fst p) = repr_buffer_len (snd p) /\ g' = g1
@@ -150,7 +152,8 @@ Proof.
       split; [exact G2|congruence].
     + split; [left; eapply frame_trans; [eapply frame_trans; eassumption|exact Hfr']|].
       split; [destruct Hg' as [X|X]; [left; exact X|right; left; exact X]|].
-      exists zwp, ka. split; [exact Hok|]. split; [reflexivity|]. split; [exact Hse|exact Hg'].
+      exists zwp, ka. split; [exact Hok|]. split; [reflexivity|]. split; [exact Hse|].
+      split; [exact Hg'|]. do 4 right. left. reflexivity.
   - (* the device refused the frame: the socket stays as it was when the segment was built *)
     injection H as <- <- <-.
     exists g1, s1, g1. split; [exact Hg1|]. split; [exact Hinv1|].
@@ -181,7 +184,9 @@ Proof.
   intros cx g s e s' res tags Hinv Hcx H.
   destruct (dispatch_inv_full _ _ _ _ _ _ _ Hinv Hcx H)
     as (g1 & s1 & g' & A1 & A2 & A3 & A4 & A5 & A6 & _ & A8).
-  exists g1, s1, g'. auto 10.
+  exists g1, s1, g'. repeat (split; [assumption|]).
+  destruct res; [exact I| |exact A8].
+  destruct A8 as (zwp & ka & B1 & B2 & B3 & B4 & _). exists zwp, ka. auto.
 Qed.
 
 (* ------------------------------------------------------------------------------------------ *)
